@@ -16,7 +16,9 @@ RULE = (
     "sets or the escaping exception class. Streams seq and grammar enumerate EVERY sequence up to the stated length "
     "over each alphabet (block, inner, end, inline, unknown, odd names such as '' and 'end', raw/doc/comment); "
     "valid draws structured well-formed templates from the block grammar, mutated applies 1-3 token edits to them; "
-    "styles varies whitespace control and filler. Non-trivial: at least two tag tokens, at least one of which opens "
+    "styles varies whitespace control and filler; innermaps passes six caller-supplied inner_tags maps; exprs gives "
+    "tags malformed expressions (model audits the tokens the real lexer produced); delims uses custom delimiters and "
+    "template comments; entrypoints compares the three public entry points. Non-trivial: at least two tag tokens, at least one of which opens "
     "or closes a block (so the block stack is exercised)."
 )
 TRUSTED_BASE = [
@@ -28,12 +30,12 @@ TRUSTED_BASE = [
 ]
 MANIFEST = {
     "technique": "Lean 4 proof (induction over token lists; simulation between the parser's frame stack and the audit's block stack) + translator-regenerated tag tables + exhaustive differential correspondence of lexer, parser grammar and audit",
-    "text": "audit_total: for every table and every token list the audit returns (the guarded pop never fails). strict_parse_implies_clean_partial: for a consistent table every token list accepted by the restricted block grammar (= the strict parser's grammar minus two listed behaviours) is audited clean; both generated tables are proved consistent by kernel evaluation; the two excluded behaviours are kernel-checked counterexamples and known findings. lexer_output_shaped + source_strict_parse_implies_clean_partial lift this to sources (the lexer never leaves tag tokens inside a comment). unknown_reported / unknown_end_reported / unclosed_reported / unclosed_reported_count: unknown names and block tags that occur more often than their end tag always appear in the report, for every table and token list. The model (lexer at tag level, parser grammar, audit) is compared with the real code on every tag sequence up to length 5 (quick) / 6-8 (thorough) over eleven alphabets and on generated templates, in both environments.",
+    "text": "parser_names_agree_*: the tag names extracted from every Tag.parse source (parse_block/eat_block/expect/is_tag) equal the grammar model's end+inner names. strict_parse_implies_clean_any_map/superset_map_partial: the clean-report theorem for caller-supplied inner_tags maps. audit_total: for every table and every token list the audit returns (the guarded pop never fails). strict_parse_implies_clean_partial: for a consistent table every token list accepted by the restricted block grammar (= the strict parser's grammar minus two listed behaviours) is audited clean; both generated tables are proved consistent by kernel evaluation; the two excluded behaviours are kernel-checked counterexamples and known findings. lexer_output_shaped + source_strict_parse_implies_clean_partial lift this to sources (the lexer never leaves tag tokens inside a comment). unknown_reported / unknown_end_reported / unclosed_reported / unclosed_reported_count: unknown names and block tags that occur more often than their end tag always appear in the report, for every table and token list. The model (lexer at tag level, parser grammar, audit) is compared with the real code on every tag sequence up to length 5 (quick) / 6-8 (thorough) over eleven alphabets and on generated templates, in both environments.",
     "note": "Trusted: Lean kernel, the hand model of _audit_tags / lexer / parser grammar (validated exhaustively on short sequences, sampled on long ones), the table emitter, the harness. Tag expressions are fixed well-formed strings: the claim is about block structure. Two behaviours of the unchanged tree violate the false-alarm sentence and are listed known findings (break/continue outside a for block; tags inside the region a LAX-mode if/unless skips after an extraneous else).",
 }
 ASSUMPTIONS = [
-    "tag arguments are well-formed (fixed per tag name); sources are built from whole tags, so the lexer never sees an unterminated '{%' or '{{'",
-    "default inner-tag map (the inner_tags= argument of analyze_tags_from_string is not varied)",
+    "for the parses-implies-clean sentence tag arguments are well-formed (fixed per tag name; stream exprs drops this for totality and reporting); sources are built from whole tags, so the lexer never sees an unterminated '{%' or '{{'",
+    "caller-supplied inner_tags maps are mappings from str to lists of str",
     "strict_parse_implies_clean is proved for the restricted grammar (no bare break/continue, no extraneous-else skipping); the full statement is refuted by kernel-checked counterexamples mirrored by known findings",
 ]
 
@@ -180,6 +182,8 @@ def direct_oracle(envname, obs, inner_map=None, false_alarms=True):
     ends = {t.end for t in env.tags.values() if t.block and t.end}
     unknown = set(audit["unknown"])
     for t in toks:
+        if t in inner and t in unknown and not t.startswith("end"):
+            return (f"inner-tag-reported-unknown|{t}", f"{t!r} is an inner tag in the inner-tag map in force yet reported unknown: {audit}")
         if t in env.tags or t in inner:
             continue
         if not t.startswith("end"):
